@@ -553,7 +553,11 @@ impl ClientH {
                 };
                 wire(ser, 0, 0, &command("_error", *tx, V::Null, args))
             }
-            CAct::OnStatus { code } => wire(ser, 1, 0, &command("onStatus", 0.0, V::Null, vec![obj(vec![("level", s("status")), ("code", s(code))])])),
+            CAct::OnStatus { code } => {
+                // failure codes carry level "error", as servers send them
+                let level = if code.ends_with(".BadName") || code.ends_with(".StreamNotFound") || code.ends_with(".Failed") { "error" } else { "status" };
+                wire(ser, 1, 0, &command("onStatus", 0.0, V::Null, vec![obj(vec![("level", s(level)), ("code", s(code))])]))
+            }
             CAct::OnStatusMalformed { shape } => match shape {
                 0 => wire(ser, 1, 0, &command("onStatus", 0.0, V::Null, vec![])),
                 1 => wire(ser, 1, 0, &command("onStatus", 0.0, V::Null, vec![s("NetStream.Play.Start")])),
